@@ -535,6 +535,7 @@ func (e *env) doCase(kind string, ids, rel []hash, toCoq bool, maxOps int, fullO
 	add(op{kind: "raw", hs: nil, fs: nil, rel: []hash{foreign}, note: "empty-proof+foreign"})
 
 	results := make([]bool, len(ops))
+	panicsBefore := e.panicsSeen
 	for k := range ops {
 		o := &ops[k]
 		hs2, fs2, rel2, root2 := o.apply(ph, pf, rel, root)
@@ -579,7 +580,7 @@ func (e *env) doCase(kind string, ids, rel []hash, toCoq bool, maxOps int, fullO
 	}
 
 	// ---- model side
-	if !toCoq || e.panicsSeen > 0 {
+	if !toCoq || e.panicsSeen > panicsBefore { // a panicking case has no observable to compare
 		return
 	}
 	sel := make([]int, 0, len(ops))
@@ -684,53 +685,60 @@ func (e *env) sublist(ids []hash) []hash {
 	return rel
 }
 
+// malformed: inputs outside the property's hypotheses
+func (e *env) malformed(k, maxN int) (ids, rel []hash) {
+	rng := e.c.Rng
+	n := 1 + rng.Intn(maxN)
+	ids = e.ids(n)
+	rel = e.sublist(ids)
+	switch k % 4 {
+	case 0: // duplicate id in the list
+		ids = append(ids, ids[rng.Intn(n)])
+		j := rng.Intn(len(ids))
+		ids[j], ids[len(ids)-1] = ids[len(ids)-1], ids[j]
+	case 1: // foreign id among the related
+		at := rng.Intn(len(rel) + 1)
+		rel = append(append(append([]hash{}, rel[:at]...), e.freshHash()), rel[at:]...)
+	case 2: // related reversed
+		for i, j := 0, len(rel)-1; i < j; i, j = i+1, j-1 {
+			rel[i], rel[j] = rel[j], rel[i]
+		}
+	case 3: // related with a repetition
+		if len(rel) > 0 {
+			rel = append(rel, rel[rng.Intn(len(rel))])
+		}
+	}
+	return ids, rel
+}
+
 func run(c *Ctx) error {
-	e := &env{c: c, budget: c.N(9000, 60000)}
+	e := &env{c: c, budget: c.N(7000, 30000)}
 	rng := c.Rng
 
-	// (A) cases for the model AND the oracle: every size 0..64 is reached; small sizes densely
+	// (A) cases for the model AND the oracle (budgeted: ~18 ms per hash in Coq): a few long lists
+	// first, then the malformed stream, then every size 0..16 (small sizes densely)
 	reps := c.N(1, 5)
+	bigSizes := []int{64, 33, 32, 17, 63, 48, 31, 24, 20, 19, 18, 40}
 	for rep := 0; rep < reps; rep++ {
-		for n := 0; n <= 8; n++ {
-			for k := 0; k < 10; k++ {
-				ids := e.ids(n)
-				e.doCase("structured", ids, e.sublist(ids), true, 10, false)
-			}
+		for k := 0; k < 4; k++ {
+			ids := e.ids(bigSizes[(4*rep+k)%len(bigSizes)])
+			e.doCase("structured", ids, e.sublist(ids), true, 3, false)
 		}
-		for n := 9; n <= 20; n++ {
-			for k := 0; k < 2; k++ {
+		// malformed / outside the property's hypotheses: duplicates in the list, related ids that are
+		// foreign, repeated or out of order
+		for k := 0; k < 12; k++ {
+			ids, rel := e.malformed(k, 9)
+			e.doCase("malformed", ids, rel, true, 6, false)
+		}
+		for n := 0; n <= 8; n++ {
+			for k := 0; k < 4; k++ {
 				ids := e.ids(n)
 				e.doCase("structured", ids, e.sublist(ids), true, 8, false)
 			}
 		}
-		for _, n := range []int{24, 31, 32, 33, 48, 63, 64} {
+		for n := 9; n <= 16; n++ {
 			ids := e.ids(n)
 			e.doCase("structured", ids, e.sublist(ids), true, 6, false)
-		}
-		// malformed / outside the property's hypotheses: duplicates in the list, related ids that are
-		// foreign, repeated or out of order
-		for k := 0; k < 24; k++ {
-			n := 1 + rng.Intn(9)
-			ids := e.ids(n)
-			rel := e.sublist(ids)
-			switch k % 4 {
-			case 0: // duplicate id in the list
-				ids = append(ids, ids[rng.Intn(n)])
-				j := rng.Intn(len(ids))
-				ids[j], ids[len(ids)-1] = ids[len(ids)-1], ids[j]
-			case 1: // foreign id among the related
-				at := rng.Intn(len(rel) + 1)
-				rel = append(append(append([]hash{}, rel[:at]...), e.freshHash()), rel[at:]...)
-			case 2: // related reversed
-				for i, j := 0, len(rel)-1; i < j; i, j = i+1, j-1 {
-					rel[i], rel[j] = rel[j], rel[i]
-				}
-			case 3: // related with a repetition
-				if len(rel) > 0 {
-					rel = append(rel, rel[rng.Intn(len(rel))])
-				}
-			}
-			e.doCase("malformed", ids, rel, true, 8, false)
 		}
 	}
 
@@ -749,9 +757,13 @@ func run(c *Ctx) error {
 			e.doCase("all-subsets", ids, rel, false, 0, true)
 		}
 	}
-	for k := 0; k < c.N(400, 4000); k++ {
+	for k := 0; k < c.N(400, 2500); k++ {
 		ids := e.ids(rng.Intn(65))
 		e.doCase("random-0..64", ids, e.sublist(ids), false, 0, k%10 == 0)
+	}
+	for k := 0; k < c.N(120, 1200); k++ {
+		ids, rel := e.malformed(k, 40)
+		e.doCase("malformed", ids, rel, false, 0, false)
 	}
 	for _, n := range []int{65, 100, 127, 128, 129, 255, 257, 1000, 1023, 1025, 4097} {
 		if n > 300 && !c.Thorough() {
@@ -767,11 +779,11 @@ func run(c *Ctx) error {
 		"each proof hash replaced (random, one bit flipped, another tree node, another proof hash, the empty-string hash), each flag replaced (0,1,2,3,255,random), " +
 		"other roots, related lists with a foreign id appended/prepended/inserted/replacing, dropped/repeated/swapped related ids, truncated and extended proofs, " +
 		"alternative proofs with finer Assist granularity, forged leaves, random proofs. The oracle checks completeness, wrong-root rejection, soundness for foreign ids and single-element tampering on all of them; " +
-		"a budgeted sample (all sizes 0..20 and 24,31,32,33,48,63,64) is evaluated by the Coq model with real SHA3-256 and compared bit-exactly (root, proof, every validation result)."
+		"a budgeted sample (all sizes 0..16, some of 17..64, and the malformed stream) is evaluated by the Coq model with real SHA3-256 and compared bit-exactly (root, proof, every validation result)."
 	// spread the expensive cases evenly over the shards (they are evaluated in parallel):
 	// sort by estimated cost and deal them round-robin
 	sort.SliceStable(e.pending, func(i, j int) bool { return e.pending[i].cost > e.pending[j].cost })
-	shards := c.N(28, 56)
+	shards := c.N(14, 28)
 	per := (len(e.pending) + shards - 1) / shards
 	if per < 1 {
 		per = 1
